@@ -244,7 +244,20 @@ func (c *Compiler) expandModule(module *parse.Module) {
 	// Apply augments
 	children := nod.ChildrenByType(parse.NodeAugment)
 	children = append(children, nod.ChildrenByType(parse.NodeOpdAugment)...)
-	for _, a := range children {
+	for i := range children {
+
+		// The order in which the augments are written means nothing: one
+		// whose target is added by another augment of the module lets an
+		// augment that can be applied go first.
+		if c.augmentTargetMissing(children[i]) {
+			for j := i + 1; j < len(children); j++ {
+				if !c.augmentTargetMissing(children[j]) {
+					children[i], children[j] = children[j], children[i]
+					break
+				}
+			}
+		}
+		a := children[i]
 
 		if _, ok := a.Argument().(*parse.AbsoluteSchemaArg); !ok {
 			c.error(a,
@@ -281,6 +294,24 @@ func (c *Compiler) expandModule(module *parse.Module) {
 		c.applyAugment(a, allowedNodes, applyToPath, schema.Current) //AGJ
 		nod.ReplaceChild(a)
 	}
+}
+
+// augmentTargetMissing tells whether the target of a module-level augment
+// does not exist (yet).  An augment that is wrong in another way is not
+// "missing its target": it is reported where it stands.
+func (c *Compiler) augmentTargetMissing(a parse.Node) bool {
+	if _, ok := a.Argument().(*parse.AbsoluteSchemaArg); !ok {
+		return false
+	}
+	applyToPath := a.ArgSchema()
+	applyToMod, err := a.GetModuleByPrefix(
+		applyToPath[0].Space, c.modules, c.skipUnknown)
+	if err != nil || applyToMod == nil {
+		return false
+	}
+	applyToMod = c.owningModule(applyToMod)
+	return c.getDataDescendant(a, getAugmentableNodesForModule(applyToMod),
+		applyToPath, func(parse.Node) {}) == nil
 }
 
 func (c *Compiler) expandGroupings(mod, nod parse.Node, parentStatus schema.Status) error {
